@@ -178,9 +178,16 @@ def check_guard(ctx, r):
     ws = new_style_wrappers(m, r)
     ctx.counters["new_style_wrappers"] = len(ws)
     ctx.floor("C19.1", "new_style_wrappers", 1)
+    check_no_decoration_time_switch(ctx, "C19.1")
+    _check_wrapper_guards(ctx, r, ws)
+
+
+def check_no_decoration_time_switch(ctx, tag="C19.1"):
+    """The switches may only be consulted per call: any read in jaxtyped's own (decoration-time) scope freezes the
+    decision for the lifetime of the decorated function (also composed into C07: a function decorated while the switch
+    was on runs its body on ill-typed arguments for ever)."""
+    m = ctx.model
     jt = m.func("_decorator.jaxtyped")
-    # the switches may only be consulted per call: any read in jaxtyped's own (decoration-time) scope
-    # freezes the decision for the lifetime of the decorated function
     for n in walk_scope(jt.node):
         frozen = None
         if isinstance(n, ast.Attribute) and isinstance(n.ctx, ast.Load) and n.attr == "jaxtyping_disable":
@@ -190,11 +197,16 @@ def check_guard(ctx, r):
         if isinstance(n, ast.Attribute) and isinstance(n.ctx, ast.Load) and n.attr == "__no_type_check__":
             frozen = "__no_type_check__"
         if frozen:
-            ctx.bad("C19.1", jt, n, f"`{frozen}` is consulted when the function is decorated, not when it is called: what was decided then (skipping the typechecker, "
+            ctx.bad(tag, jt, n, f"`{frozen}` is consulted when the function is decorated, not when it is called: what was decided then (skipping the typechecker, "
                     "capturing the flag) is not undone when the switch is toggled later, so switching back on does not restore checking",
                     construct=f"decoration-time read of {frozen}")
     else:
-        pass
+        ctx.ok(tag, jt.qualname, "neither switch is read in the decorator's own (decoration-time) scope")
+
+
+def _check_wrapper_guards(ctx, r, ws):
+    m = ctx.model
+    jt = m.func("_decorator.jaxtyped")
     for w, impl in ws:
         ctx.saw(w)
         g = NoReturn(m).cfg(w)
